@@ -92,6 +92,14 @@ Objects that change (C20)
   claim about Python).
 * A function defined at the top of a method's body (`_binary`) must be closed (no variable of the
   enclosing function) and is translated as the separate function `C.m._f`; calls may use keywords.
+* WHICH definition a name denotes must not depend on when the call runs (Review E5.1): a module-level function /
+  class, a method, a nested function is defined ONCE in its scope (a second `def` / `class`, an import or an
+  assignment of the same name is rejected); a nested function is defined before the first other statement of the
+  enclosing body (never under an `if` / a loop), so it cannot be used before its definition; its name is bound by
+  nothing else in that body; a call `f(..)` where `f` is a variable of the calling function (or, inside a nested
+  function, of the enclosing one) is rejected even when a function of the module has that name.
+* `self_<attr>` is the Lean name of `self.<attr>` inside `__init__`: no parameter, local, loop target or
+  comprehension variable may be spelled `self` / `self_*` (Review E5.4).
 * `if x is None` / `if x is not None` on an Optional local become `match x with | some x => .. | none => ..`
   (the `some` arm is typed with `x` at the inner type; a later test of `x` in either arm is decided
   statically); `if a or b` where `b` may raise, or needs `a` to be false to be typed, is `if a .. elif b ..`.
@@ -103,6 +111,16 @@ Objects that change (C20)
   loop as) a statement that hands the bare reference on (`check_moves`).  What is RETURNED may share
   objects with the arguments, `self` included (`return [partition]`): which objects are identical is not
   part of the translation, only their values when the function returns.
+  The result of a call may be BOUND to a name only when the callee returns a syntactically NEW value on every
+  path (`new_value`: display, comprehension, `list(..)`, `[e] * n`, `a + b`, slice, `deepcopy`, `None`, a local
+  that is not a loop target, a new call, `a if c else b` of these).  A callee that may return a parameter, an
+  attribute, a ROW of one (`self.table[i]`, `xs[0]`), a loop target, or a display holding a list parameter / a
+  loop target (`[xs]`, `[row]`) is `ret_alias` (Review E5.3).  The receiver of a method whose result holds a list /
+  an object counts as handed on (`x = self.me()` with `return [self]`), and a row `x.rows[i]` may not be handed
+  on in the statement of a call that changes `x`.
+* `for v in <live collection>`: Python iterates over the list itself.  The body may change neither the variable
+  iterated over nor — `for x in self.attr`, `enumerate(self.attr)`, `self.rows[i]`, `obj.m()` — the object that
+  holds it, directly or through a method that changes it (Review E5.2); `range(len(self.attr))` is evaluated once.
 * `x[k:]` (`List.drop`), `return a + b` on two local lists, `list(range(n))`, `x[i].append(v)`,
   `[e for x in seq if c]`, `return [x for x in local if c]` (the rows move into the result).  A
   comprehension / generator whose element expression may raise or changes an object
@@ -332,7 +350,12 @@ LEAN_KEYWORDS = set(
     "abbrev at axiom by class def deriving do else end example from fun have if import in "
     "inductive instance let match mutual namespace notation open private protected section "
     "set_option show structure syntax then theorem universe variable where with macro local "
-    "partial unsafe opaque nomatch nofun this Type Prop Sort".split()
+    "partial unsafe opaque nomatch nofun this Type Prop Sort "
+    # further tokens of Lean 4.33 that do not parse as a `let` binder (each one tried: `let calc : Nat := ..` is a
+    # syntax error, i.e. a harmless renaming of a Python local made the tie `unavailable`)
+    "calc forall exists using extends catch prefix infix infixl infixr postfix attribute export noncomputable "
+    "termination_by decreasing_by nonrec renaming hiding unless suffices mut omit include initialize elab "
+    "prelude".split()
 )
 RESERVED = {"it_", "fuel_", "e_", "v_", "lt_", "ord_", "rec_", "p_"}
 # Lean constants that the GENERATED text itself mentions unqualified (`none`, `some x`, `true`, `decide (..)`,
@@ -709,8 +732,11 @@ class FunctionTranslator:
                 self.types["self"] = tstruct(cls, any(uses_elem(t) for t in attrs.values()))
         declared = self.mod.param_types.get(self.qual, {})
         for p in args:
-            if p.arg == "self":
-                raise Unsupported(p, "parameter named `self`")
+            if p.arg == "self" or p.arg.startswith("self_"):
+                # inside `__init__` the attribute `self.x` is the Lean local `self_x`: a parameter of that spelling
+                # would be shadowed by it (`def __init__(self, self_total): self.total = 5; self.other = self_total`
+                # stored 5)
+                raise Unsupported(p, f"parameter name `{p.arg}` is reserved by the translator")
             lean_name(p.arg, p)
             self.params.append(p.arg)
             ann = p.annotation
@@ -738,16 +764,19 @@ class FunctionTranslator:
                 if "self." + at in self.types:
                     self.types["self." + at] = ty
         self.ret_type = BOT
+        # targets of `for` loops / comprehensions: such a name denotes an ELEMENT of the collection iterated over
+        # (a row of `self.table`, of a parameter), not a value built by this function
+        self.loop_vars = set()
+        for sub in ast.walk(ast.Module(body=self.fn_body, type_ignores=[])):
+            if isinstance(sub, (ast.For, ast.comprehension)):
+                self.loop_vars |= set(loop_targets(sub))
         self.translate_nested()
         self.infer()
         for sub in ast.walk(ast.Module(body=self.fn_body, type_ignores=[])):
             if isinstance(sub, ast.Return) and sub.value is not None:
                 v = sub.value
-                if isinstance(v, ast.Name) and v.id in self.params and has_list(self.types[v.id]):
-                    self.ret_alias = True  # the result IS a parameter: callers must not bind it
-                if isinstance(v, ast.Attribute) and target_key(v) and self.kind == "method" \
-                        and has_list(self.attr_types().get(v.attr, BOT)):
-                    self.ret_alias = True  # the result IS an attribute
+                if has_list(self.ret_type) and not self.new_value(v):
+                    self.ret_alias = True  # the result may BE an existing object: callers must not bind it
                 for n in ast.walk(v):
                     # `return [x]`, `return [x for x in xs if ..]`: the result HOLDS an existing object
                     if isinstance(n, ast.List) and any(isinstance(e, ast.Name) and has_list(self.types.get(e.id, BOT))
@@ -758,6 +787,17 @@ class FunctionTranslator:
                         self.ret_shares = True
                 if isinstance(v, ast.Name) and v.id in self.mut_params:
                     raise Unsupported(sub, "a parameter that is changed in place is also returned")
+        if has_list(self.ret_type) and not self.ret_shares:
+            # the result of a callee that holds existing objects (`return wrap(b)`, `x = wrap(b); return x` with
+            # `def wrap(b): return [b]`) may end up in this function's result too
+            for st in self.fn_body:
+                if isinstance(st, ast.FunctionDef):
+                    continue
+                for n in ast.walk(st):
+                    if isinstance(n, ast.Call) and not self.is_self_call(n):
+                        sig = self.callee_sig(n)
+                        if sig is not None and (sig.get("ret_shares") or sig.get("ret_alias")):
+                            self.ret_shares = True
         if self.kind == "init":
             self.attrs = {v[5:]: self.types[v] for v in self.vars if v.startswith("self.")}
             for at, ty in self.attrs.items():
@@ -955,6 +995,25 @@ class FunctionTranslator:
 
     def translate_nested(self):
         """Functions defined at the top level of the body: translated as separate (closed) functions."""
+        bound_elsewhere = assigned([b for b in self.fn_body if not isinstance(b, ast.FunctionDef)]) | set(self.params)
+        for sub in ast.walk(ast.Module(body=[b for b in self.fn_body if not isinstance(b, ast.FunctionDef)],
+                                       type_ignores=[])):
+            if isinstance(sub, (ast.For, ast.comprehension)):
+                bound_elsewhere |= set(loop_targets(sub))
+        seen = set()
+        for st in self.nested:
+            if st.name in seen or st.name in bound_elsewhere:
+                # Python calls whatever the name holds at the time of the call; the translation would call the
+                # LAST definition everywhere
+                raise Unsupported(st, f"the nested function `{st.name}` is defined twice / rebound")
+            seen.add(st.name)
+        seen_other = False
+        for st in self.fn_body:
+            if isinstance(st, ast.FunctionDef):
+                if seen_other:
+                    raise Unsupported(st, "a nested function must be defined before the first statement of the body")
+            elif not is_docstring(st):
+                seen_other = True
         for st in self.nested:
             if self.parent is not None:
                 raise Unsupported(st, "function nested twice")
@@ -963,6 +1022,9 @@ class FunctionTranslator:
                 if isinstance(sub, (ast.comprehension, ast.For)):
                     local |= set(loop_targets(sub))
             known = local | BUILTINS | set(self.mod.classes) | set(self.mod.sigs) | {"deepcopy", "set"}
+            # (a name bound by the enclosing function is ITS variable inside the nested function too, even when a
+            # function of the module has the same name)
+            known -= (bound_elsewhere | {n.name for n in self.nested}) - local
             for b in st.body:
                 for sub in ast.walk(b):
                     if isinstance(sub, ast.Name) and sub.id not in known:
@@ -1254,6 +1316,44 @@ class FunctionTranslator:
         if not fresh:
             raise Unsupported(node, "aliasing of a list (a later in-place change would be shared)")
 
+    def new_value(self, v):
+        """The RETURNED expression `v` (of a type that is or holds a list / an object) is syntactically a NEW
+        object: a display, a comprehension, `list(..)` / `set(..)` / `deque(..)`, `[e] * n`, `a + b`, a slice,
+        `deepcopy(..)`, the result of a translated function that is itself new, `None`, a local that is not a loop
+        target (locals are only ever bound to new values: `check_fresh`), `a if c else b` on two of these.
+        Anything else — a parameter, an attribute, a ROW of one (`self.table[i]`, `xs[0]`), a loop target
+        ranging over one — may be a second reference to an object the caller / `self` still holds: the function
+        is `ret_alias`, callers must not bind its result.  A display that holds a list PARAMETER or a loop target
+        (`return [xs]`, `return [row]`) is no better: a row of the result IS the caller's list (`r[0].append(..)`).
+        (An OBJECT held by the result, `return [partition]`, is only `ret_shares`: an object inside a list can be
+        changed by no translated statement — a method call needs a plain name as its receiver.)"""
+        if isinstance(v, ast.Constant):
+            return True
+        if isinstance(v, ast.IfExp):
+            return self.new_value(v.body) and self.new_value(v.orelse)
+        if isinstance(v, ast.Name):
+            return v.id not in self.params and v.id not in self.loop_vars
+        if isinstance(v, ast.List):
+            for e in v.elts:  # (an element that is not a name / a display is checked by `check_fresh`)
+                if isinstance(e, ast.Name) and (e.id in self.params or e.id in self.loop_vars) \
+                        and has_list(self.types.get(e.id, BOT)) and not is_struct(self.types.get(e.id)):
+                    return False
+                if isinstance(e, ast.List) and not self.new_value(e):
+                    return False
+            return True
+        if isinstance(v, (ast.ListComp, ast.DictComp)):
+            return True  # (`[x for x in seq if c]` on rows `x`: `seq` must be a local that dies, see `listcomp`)
+        if isinstance(v, ast.BinOp) and isinstance(v.op, ast.Mult):
+            return True  # `[e] * n`, `e` not a list
+        if isinstance(v, ast.BinOp) and isinstance(v.op, ast.Add):
+            # `a + b`: a new list; its ROWS are those of `a` and `b` (locals that die with the `return`)
+            return not any(isinstance(x, ast.Name) and x.id in self.loop_vars for x in (v.left, v.right))
+        if isinstance(v, ast.Subscript) and isinstance(v.slice, ast.Slice):
+            return True
+        if isinstance(v, ast.Call) and isinstance(v.func, ast.Name) and v.func.id in ("list", "set", "deque"):
+            return True
+        return isinstance(v, ast.Call) and self.fresh_call(v)
+
     def callee_sig(self, node):
         """The translator of the (nested / module / method) function called by `node`, or its signature."""
         f = node.func
@@ -1477,6 +1577,8 @@ class FunctionTranslator:
         try:
             for t, ty in zip(targets, tys):
                 if t != "_":
+                    if t == "self" or t.startswith("self_"):
+                        raise Unsupported(node, f"comprehension variable `{t}` is reserved by the translator")
                     lean_name(t, node)
                     self.types[t] = ty
             inside = defined | {t for t in targets if t != "_"}
@@ -1490,7 +1592,7 @@ class FunctionTranslator:
         if same and has_list(et):
             # the rows of the result ARE rows of `seq`: sound when `seq` is a local that dies here
             if not self.dry and not (self.in_return and isinstance(gen.iter, ast.Name)
-                                     and gen.iter.id not in self.params):
+                                     and gen.iter.id not in self.params and gen.iter.id not in self.loop_vars):
                 raise Unsupported(node, "aliasing of a list (supported: `return [x for x in local if ..]`)")
         else:
             self.check_fresh(node.elt, et, node.elt)
@@ -1687,13 +1789,29 @@ class FunctionTranslator:
                 if isinstance(up2, ast.Call) and up2.func is up:
                     continue  # receiver of a method call (this one or another hoisted one)
                 if isinstance(up2, ast.Subscript) and up2.value is up and not isinstance(up2.slice, ast.Slice):
-                    continue  # hoisted load
+                    # hoisted load; what is loaded must be a plain value: a ROW (`self.m(self.table[0])`) is a
+                    # second reference to a list that the call may change
+                    rty = self.types.get(recv)
+                    ty = self.mod.classes.get(rty[1], {}).get(up.attr, BOT) if is_struct(rty) else BOT
+                    top = up
+                    while isinstance(parent.get(top), ast.Subscript) and parent[top].value is top \
+                            and not isinstance(parent[top].slice, ast.Slice):
+                        top = parent[top]
+                        ty = ty[1] if is_seq(ty) else (ty[2] if is_dict(ty) else BOT)
+                    if has_list(ty) or has_bot(ty):
+                        raise Unsupported(top, f"a list held by `{recv}` is handed on in the same statement as a "
+                                               "call that changes it")
+                    continue
             elif isinstance(up, (ast.Call, ast.keyword)):
                 continue  # a bare reference passed on
             raise Unsupported(n, f"`{recv}` is read in the same statement as a call that changes it")
 
     def call(self, node, defined, hoists):
         f = node.func
+        if isinstance(f, ast.Name) and f.id in self.types and f.id not in self.local_fns:
+            # a variable of this function (wherever it is assigned: Python makes the name local to the whole body,
+            # `r = first(k); first = 3` raises UnboundLocalError) hides the function / class of that name
+            raise Unsupported(node, f"call of `{f.id}`, a variable of the function")
         if isinstance(f, ast.Name) and (f.id in self.local_fns or (
                 f.id == self.fn.name and (self.parent is not None or self.kind == "function"))):
             return self.translated_call(node, defined, hoists)
@@ -2563,6 +2681,18 @@ class FunctionTranslator:
         for v in reads([st.iter]) & assigned(st.body):
             if is_coll(self.types.get(v)):
                 raise Unsupported(st, f"the loop body changes the list `{v}` it iterates over")
+        # `for x in self.attr` / `enumerate(self.attr)` / `for x in self.rows[i]` / `for x in obj.m()` iterate over
+        # the LIVE list: a body that changes the object (directly, or through a method that does) may change that
+        # list under the iterator, while the translation iterates over the value it had before the loop.
+        # (`range(len(self.attr))` is evaluated once, before the first iteration.)
+        live = st.iter
+        if isinstance(live, ast.Call) and isinstance(live.func, ast.Name) and live.func.id == "enumerate" \
+                and len(live.args) == 1 and not live.keywords:
+            live = live.args[0]
+        if not (isinstance(live, ast.Call) and isinstance(live.func, ast.Name) and live.func.id == "range"):
+            for v in sorted(reads([live]) & self.assigned_(st.body)):
+                if has_list(self.types.get(v)):
+                    raise Unsupported(st, f"the loop body may change `{v}`, which holds the list it iterates over")
         pairs = self.iter_pairs
         mode = self.target_mutation(st, defined)
         state, free, name = self.loop_frame(st, defined, targets, mode)
@@ -2780,6 +2910,12 @@ class FunctionTranslator:
 
         def leaks(n):
             up = parent.get(n)
+            up2 = parent.get(up)
+            if isinstance(up, ast.Attribute) and isinstance(up2, ast.Call) and up2.func is up:
+                # `x.m(..)`: the result of a method that returns a list / an object may hold `x` itself
+                # (`def me(self): return [self]`), like the result of a call that is handed `x` as an argument
+                sig = self.callee_sig(up2)
+                return sig is not None and has_list(sig["ret_ty"])
             if isinstance(up, (ast.Attribute, ast.Subscript, ast.Compare, ast.BoolOp, ast.UnaryOp, ast.If,
                                ast.While, ast.Assert, ast.For, ast.comprehension)):
                 return False
@@ -2951,10 +3087,14 @@ def class_parts(cls, spec):
     if cls.keywords or cls.decorator_list:
         raise Unsupported(cls, "class with keywords / decorators")
     methods = {}
+    seen = set()
     for st in cls.body:
         if is_docstring(st) or isinstance(st, ast.Pass):
             continue
         if isinstance(st, ast.FunctionDef):
+            if st.name in seen:
+                raise Unsupported(st, f"method `{cls.name}.{st.name}` is defined twice")
+            seen.add(st.name)
             if f"{cls.name}.{st.name}" in spec.ignored_methods:
                 check_observer(cls, st, spec)
                 continue
@@ -3101,8 +3241,27 @@ def _translate_source(text, spec, seeds):
             rebound.add(st.arg)
         if isinstance(st, (ast.Import, ast.ImportFrom)) and st not in tree.body:
             rebound |= set(special)
+    defined_names = {}  # functions / classes of the module -> the statement that defines them
     for st in tree.body:
         bound = []
+        if isinstance(st, (ast.Import, ast.ImportFrom, ast.Assign, ast.AnnAssign, ast.AugAssign, ast.FunctionDef,
+                           ast.ClassDef)):
+            # one definition per name: a function / class that is defined twice, or whose name is also bound by an
+            # import / an assignment, is rejected (which binding a call reaches depends on WHEN it runs)
+            if isinstance(st, (ast.Import, ast.ImportFrom)):
+                names = [(a.asname or a.name).split(".")[0] for a in st.names]
+            elif isinstance(st, (ast.FunctionDef, ast.ClassDef)):
+                names = [st.name]
+            else:
+                tgts = st.targets if isinstance(st, ast.Assign) else [st.target]
+                names = [n.id for t in tgts for n in ast.walk(t) if isinstance(n, ast.Name)]
+            for b in names:
+                if b in defined_names and (isinstance(st, (ast.FunctionDef, ast.ClassDef))
+                                           or isinstance(defined_names[b], (ast.FunctionDef, ast.ClassDef))):
+                    raise Unsupported(st, f"`{b}` is defined twice at module level")
+                defined_names.setdefault(b, st)
+                if isinstance(st, (ast.FunctionDef, ast.ClassDef)):
+                    defined_names[b] = st
         if isinstance(st, (ast.Import, ast.ImportFrom)):
             bound = [(a.asname or a.name).split(".")[0] for a in st.names]
             for a in st.names:
@@ -3173,6 +3332,10 @@ def _translate_source(text, spec, seeds):
         text_fn = ft.translate()
         doc = f"/-- `{name}` (line {fn.lineno} of {spec.source}). -/\n"
         if ft.kind == "init":
+            for at in ft.attrs:
+                if at in classes[cls]:
+                    # `self.find = ..` hides the method `find` of the instance
+                    raise Unsupported(fn, f"attribute `self.{at}` has the name of a method")
             mod.classes[cls] = ft.attrs
             out.append(f"/-- class `{cls}`: the attributes stored by `__init__`. -/\n" + ft.structure_text())
         out.append(doc + text_fn)
